@@ -83,6 +83,22 @@ def run(res, tier, lean, prop="C01", proof_breaks=(), build_log=""):
             res.bump("recursive" if recursive else "non_recursive")
             res.bump("operations", len(result["applied"]))
     outs = lean.run(lines)
+    # state tie (C02, C03): the library's two watch maps after every drained operation against the model's
+    state_bad = []
+    if prop in ("C02", "C03"):
+        mouts = lean.run([l.replace("pipe ", "pipemaps ", 1) for l in lines])
+        for line, mo, (recursive, full, as_bytes, result) in zip(lines, mouts, meta):
+            if result["timeout"] or not result.get("maps"):
+                continue
+            want = mo.split(" ; ")
+            got = result["maps"]
+            res.bump("map_states_compared", min(len(want), len(got)))
+            for k, (a, b) in enumerate(zip(got, want)):
+                if a == "-" or b == "-":
+                    break
+                if a != b:
+                    state_bad.append((line, k, a, b))
+                    break
     # the theorems' statements evaluated on the very histories that were run (invariant after every operation,
     # per-operation contract, replay): instances of proved statements, recorded as a cross-check of the driver
     spec = lean.run([l.replace("pipe ", "pipespec ", 1) for l in lines])
@@ -140,6 +156,14 @@ def run(res, tier, lean, prop="C01", proof_breaks=(), build_log=""):
         res.violation(f"native observer violates {prop}: {v}", {"request": line, "implementation": i, "model": m,
                                                                 "violating_histories": len(judged)},
                       signature=f"{prop.lower()}-judge")
+    elif state_bad and not bad:
+        state_bad.sort(key=lambda b: len(b[0]))
+        line, k, a, b = state_bad[0]
+        res.violation(f"correspondence WD.Pipe <-> Inotify broken in the library's watch maps after operation {k} of a drained "
+                      f"history (theorems {prop}.* speak about these maps): _wd_for_path/_path_for_wd {a} but the model has {b}; "
+                      "every explored history was judged and none failed",
+                      {"request": line, "after_operation": k, "implementation_maps": a, "model_maps": b,
+                       "mismatching_histories": len(state_bad)}, no_input=True, signature=f"{prop.lower()}-maps-mismatch")
     elif bad:
         bad.sort(key=lambda b: len(b[0]))
         line, i, m = bad[0]
